@@ -261,7 +261,8 @@ fn check_cli(c: &Case, ctx: &Ctx) -> Outcome {
         model::compare_nk(&xo, &t.merge(&to), k, rc, Some(k_bits_for(k))).map_err(|m| Outcome::Fail(format!("merge x o: {m}")))?;
         model::compare_nk(&ox, &to.merge(&t), k, rc, Some(k_bits_for(k))).map_err(|m| Outcome::Fail(format!("merge o x: {m}")))?;
         // three files, the outer two sharing k-mers that the middle one lacks: any order gives the model's table
-        let third: Vec<Sample> = vec![("again".to_string(), samples[0].1.clone())];
+        // (in half of the cases under the very same name: names are labels, columns are positional)
+        let third: Vec<Sample> = vec![(if k % 4 == 1 { samples[0].0.clone() } else { "again".to_string() }, samples[0].1.clone())];
         must_ok(&build(ctx, &dir, "z", &third, k, rc, 1), "ska build (third file: the first sample under another name)")?;
         let (_d3, tz) = model_table(&third, k, rc);
         for (order, out) in [(["x.skf", "o.skf", "z.skf"], "xoz"), (["z.skf", "o.skf", "x.skf"], "zox"), (["o.skf", "z.skf", "x.skf"], "ozx")] {
